@@ -2,7 +2,7 @@
    the theorems restated over it, the composition lemma for the optimize pipeline, and concrete instances showing
    that the hypotheses are satisfiable. *)
 From Coq Require Import List String ZArith Bool Lia.
-Require Import OV.Graph.Syntax OV.Graph.Sem OV.Graph.Names OV.Graph.SemProofs OV.Gen.FoldTables OV.Opt.Fold OV.Opt.SemLemmas OV.Opt.FoldProofs.
+Require Import OV.Graph.Syntax OV.Graph.Sem OV.Graph.Names OV.Graph.SemProofs OV.Gen.FoldTables OV.Opt.Fold OV.Opt.SemLemmas OV.Opt.FoldProofs OV.Opt.FoldNested.
 Import ListNotations.
 Local Open Scope list_scope.
 Local Open Scope string_scope.
@@ -67,6 +67,21 @@ Section T.
     eval_node (eval_graph F) e n = Some a ->
     facts_eq V st st2 /\ exists b, run (eval_graph F) e R = Some b /\ sub_env V a b.
   Proof. intros (A & B & C & D & E). apply (if_inline_sound V sem truth trip of_nat of_bool limit); assumption. Qed.
+
+  (* visit_graph of the model (traversal with the real recursion through nested graphs, then the replacement of graph
+     outputs with its renaming): only the op-specific partial evaluators remain as a hypothesis *)
+  Theorem fold_graph_sound_b : oracles -> forall pe cfg, pe_ok pe ->
+    forall depth fuel bound st g st' g' news tr,
+      fold_graph V ref_eval const_val attr_of_val v_dtype v_dims v_ints v_tensor pe true cfg depth fuel bound st g = OK (st', g', news, tr) ->
+      incl (s_guard V st) (c_graph_inputs cfg) ->
+      forall F outer args r,
+        (forall e0, bind (g_ins g) args outer = Some e0 -> inv V st e0 /\ dom_ok V e0 (g_ins g ++ bound)) ->
+        eval_graph (S F) outer g args = Some r -> eval_graph (S F) outer g' args = Some r.
+  Proof. intros (A & B & C & D & E) pe cfg Hpe. apply (fold_graph_sound V sem truth trip of_nat of_bool limit); assumption. Qed.
+
+  Theorem visit_subs_d_spec_b : oracles -> forall pe cfg, pe_ok pe -> forall depth fuel,
+    subs_spec cfg (visit_subs_d V ref_eval const_val attr_of_val v_dtype v_dims v_ints v_tensor pe true cfg depth fuel).
+  Proof. intros (A & B & C & D & E) pe cfg Hpe. apply (visit_subs_d_spec V sem truth trip of_nat of_bool limit); assumption. Qed.
 
   (* ---- the optimize pipeline as a composition of stages *)
   Definition refines (g g' : graph) : Prop :=
@@ -177,3 +192,28 @@ Example ex_run_result :
   | _ => False
   end.
 Proof. vm_compute. repeat split. Qed.
+
+(* the whole visit_graph on a graph with an If on a constant condition and an Identity feeding the graph output:
+   the branch is inlined (t renamed to y), the output z is replaced by y (renamed to z, the old z becomes z~dup) *)
+Definition ex2_cfg : config := mkConfig [("", 18%Z)] 8192 262144 [] ["x"] ["z"; "t"; "e"].
+Definition ex2_state : state Z := mkState Z [("c", 1%Z); ("k", 7%Z)] [] [] [] [] 0 ["c"; "k"] [].
+Definition ex2_graph : graph :=
+  Graph ["x"] ["c"; "k"]
+        [Node "" "If" [Some "c"] ["y"] []
+              [("then_branch", Graph [] [] [Node "" "Add" [Some "x"; Some "k"] ["t"] [] []] ["t"]);
+               ("else_branch", Graph [] [] [Node "" "Neg" [Some "x"] ["e"] [] []] ["e"])];
+         Node "" "Identity" [Some "y"] ["z"] [] []]
+        ["z"].
+Definition ex2_run :=
+  fold_graph Z z_ref z_const AInt (fun _ => DT_BOOL) (fun _ => []) (fun z => Some [z]) (fun _ => true)
+             (pe_none Z) true ex2_cfg 3 20 ["c"; "k"] ex2_state ex2_graph.
+Example ex2_run_result :
+  match ex2_run with
+  | OK (_, g, _, _) =>
+    g = Graph ["x"] ["c"; "k"]
+              [Node "" "Add" [Some "x"; Some "k"] ["z"] [] [];
+               Node "" "Identity" [Some "z"] ["z~dup"] [] []]
+              ["z"]
+  | _ => False
+  end.
+Proof. vm_compute. reflexivity. Qed.
